@@ -282,7 +282,14 @@ func (s *Statement) Pipeline(task *pod_info.PodInfo, hostname string, updateTask
 		nextNode:                  hostname,
 		message:                   fmt.Sprintf("Pod %s/%s was pipelined to node %s", task.Namespace, task.Name, node.Name),
 		reverseOperation: func() error {
-			return s.unpipeline(task, previousNode, previousStatus, previousGpuGroup, previousResourceClaimInfo, previousIsVirtualStatus)
+			err := s.unpipeline(task, previousNode, previousStatus, previousGpuGroup, previousResourceClaimInfo, previousIsVirtualStatus)
+			if err == nil && isSharedAndMoveToDifferentGPU {
+				// The evicted instance on the previous GPU is still charged to the node, only its entry in the
+				// node's pod map was replaced by the pipelined one: put it back, so that un-evicting the task
+				// updates it instead of charging the task a second time.
+				node.RestoreSharedPodInfo(task)
+			}
+			return err
 		},
 	})
 	task.IsVirtualStatus = true
